@@ -94,3 +94,9 @@ contract(_G + "to_polycollection", props=["C15", "C08"],
              "and same(item(result, 1), uf('build_pc_idx', src(self), periodic_elements, projection)))",
              _INV_PC],
          raises=[("ValueError", "periodic_elements == 'bogus'", "iff")])
+
+
+# ---- per-instance state (C08, C15, C19): the conversion caches and cache slots of a Grid belong to that grid object - nothing
+# mutable is bound at class level, where every Grid of the process would share it (syntactic obligation over the class body)
+contract(_G + "__init__", props=["C08", "C15", "C19"], variant="class_state", params={}, returns="none", ensures=[],
+         options={"class_state_scan": True})
